@@ -278,7 +278,7 @@ var extGens = []extGen{
 		if g.chance(60) {
 			kids = append(kids, der.Bool(true))
 			if g.chance(60) {
-				kids = append(kids, der.Int([]int64{0, 0, 1, 2, 5, 100, 1 << 20}[g.n(7)]))
+				kids = append(kids, der.Int([]int64{0, 0, 1, 2, 5, 100, 1 << 20, 128, 200, 255, 40000}[g.n(11)])) // incl. values whose DER needs a leading 0x00
 			}
 		}
 		return der.Seq(kids...)
